@@ -37,6 +37,9 @@ Gen/Contracts.vos Gen/Contracts.vok Gen/Contracts.required_vos: Gen/Contracts.v 
 Gen/Rules.vo Gen/Rules.glob Gen/Rules.v.beautified Gen/Rules.required_vo: Gen/Rules.v Core/Base.vo Sem/Model.vo Gen/HasPatcher.vo
 Gen/Rules.vio: Gen/Rules.v Core/Base.vio Sem/Model.vio Gen/HasPatcher.vio
 Gen/Rules.vos Gen/Rules.vok Gen/Rules.required_vos: Gen/Rules.v Core/Base.vos Sem/Model.vos Gen/HasPatcher.vos
+Gen/Decorators.vo Gen/Decorators.glob Gen/Decorators.v.beautified Gen/Decorators.required_vo: Gen/Decorators.v 
+Gen/Decorators.vio: Gen/Decorators.v 
+Gen/Decorators.vos Gen/Decorators.vok Gen/Decorators.required_vos: Gen/Decorators.v 
 Sem/Scenario.vo Sem/Scenario.glob Sem/Scenario.v.beautified Sem/Scenario.required_vo: Sem/Scenario.v Core/Base.vo Core/Prog.vo Py/Sig.vo Sem/Interp.vo Sem/InterpFacts.vo Sem/Model.vo Sem/Show.vo Gen/State.vo Sem/ScnSwitch.vo Gen/Validators.vo Gen/HasPatcher.vo Gen/Contracts.vo
 Sem/Scenario.vio: Sem/Scenario.v Core/Base.vio Core/Prog.vio Py/Sig.vio Sem/Interp.vio Sem/InterpFacts.vio Sem/Model.vio Sem/Show.vio Gen/State.vio Sem/ScnSwitch.vio Gen/Validators.vio Gen/HasPatcher.vio Gen/Contracts.vio
 Sem/Scenario.vos Sem/Scenario.vok Sem/Scenario.required_vos: Sem/Scenario.v Core/Base.vos Core/Prog.vos Py/Sig.vos Sem/Interp.vos Sem/InterpFacts.vos Sem/Model.vos Sem/Show.vos Gen/State.vos Sem/ScnSwitch.vos Gen/Validators.vos Gen/HasPatcher.vos Gen/Contracts.vos
@@ -97,3 +100,9 @@ Thm/C04/Effects.vos Thm/C04/Effects.vok Thm/C04/Effects.required_vos: Thm/C04/Ef
 Props/C04.vo Props/C04.glob Props/C04.v.beautified Props/C04.required_vo: Props/C04.v Core/Base.vo Core/Prog.vo Py/Sig.vo Sem/Interp.vo Sem/InterpFacts.vo Sem/Model.vo Gen/HasPatcher.vo Gen/Rules.vo Thm/Common/PatchFacts.vo Thm/Common/PatchBracket.vo Sem/Scenario.vo Thm/C04/Markers.vo Thm/C04/Effects.vo
 Props/C04.vio: Props/C04.v Core/Base.vio Core/Prog.vio Py/Sig.vio Sem/Interp.vio Sem/InterpFacts.vio Sem/Model.vio Gen/HasPatcher.vio Gen/Rules.vio Thm/Common/PatchFacts.vio Thm/Common/PatchBracket.vio Sem/Scenario.vio Thm/C04/Markers.vio Thm/C04/Effects.vio
 Props/C04.vos Props/C04.vok Props/C04.required_vos: Props/C04.v Core/Base.vos Core/Prog.vos Py/Sig.vos Sem/Interp.vos Sem/InterpFacts.vos Sem/Model.vos Gen/HasPatcher.vos Gen/Rules.vos Thm/Common/PatchFacts.vos Thm/Common/PatchBracket.vos Sem/Scenario.vos Thm/C04/Markers.vos Thm/C04/Effects.vos
+Thm/C10/Errors.vo Thm/C10/Errors.glob Thm/C10/Errors.v.beautified Thm/C10/Errors.required_vo: Thm/C10/Errors.v Core/Base.vo Core/Prog.vo Py/Sig.vo Sem/Interp.vo Sem/InterpFacts.vo Sem/Model.vo Gen/Validators.vo Gen/Decorators.vo
+Thm/C10/Errors.vio: Thm/C10/Errors.v Core/Base.vio Core/Prog.vio Py/Sig.vio Sem/Interp.vio Sem/InterpFacts.vio Sem/Model.vio Gen/Validators.vio Gen/Decorators.vio
+Thm/C10/Errors.vos Thm/C10/Errors.vok Thm/C10/Errors.required_vos: Thm/C10/Errors.v Core/Base.vos Core/Prog.vos Py/Sig.vos Sem/Interp.vos Sem/InterpFacts.vos Sem/Model.vos Gen/Validators.vos Gen/Decorators.vos
+Props/C10.vo Props/C10.glob Props/C10.v.beautified Props/C10.required_vo: Props/C10.v Core/Base.vo Core/Prog.vo Py/Sig.vo Sem/Interp.vo Sem/InterpFacts.vo Sem/Model.vo Gen/Validators.vo Gen/Decorators.vo Thm/C10/Errors.vo
+Props/C10.vio: Props/C10.v Core/Base.vio Core/Prog.vio Py/Sig.vio Sem/Interp.vio Sem/InterpFacts.vio Sem/Model.vio Gen/Validators.vio Gen/Decorators.vio Thm/C10/Errors.vio
+Props/C10.vos Props/C10.vok Props/C10.required_vos: Props/C10.v Core/Base.vos Core/Prog.vos Py/Sig.vos Sem/Interp.vos Sem/InterpFacts.vos Sem/Model.vos Gen/Validators.vos Gen/Decorators.vos Thm/C10/Errors.vos
